@@ -8,3 +8,5 @@ FUNCTIONS = [
 STANDINS = ["edge_quantities"]
 ASSUMPTIONS = ["A-TRIG"]
 EXPLANATION = "distance constructors pointwise"
+LEVEL_TEXT = "_construct_edge_node_distances / _construct_edge_face_distances proved for all tables: great-circle law-of-cosines expression of the edge's own two nodes / two face centres, zero on boundary edges, index space and degree/radian ghosts; differences, gradients, normalisation bounded"
+LEVEL_NOTE = 'A-REAL, A-TRIG; boolean-mask compression model; gradient helpers not under contract'
